@@ -261,7 +261,7 @@ def explore(ctx):
     reps = [100, 100, 200] if big else [40, 40, 80]
     for fs in (['1/0'], ['NOPE()'], ['BOOM()'], ['XL()'], ['1+'], ['#N/A'], BAD, GOOD[:10], ['Z9'], ['LISTEN'], ['SQRT(-1)', 'INDEX(LL,99)']):
         work.append(('retention', (fs, reps)))
-    for (k, c), vs in zip(work, pmap(_worker, work, limit=120.0)):
+    for (k, c), vs in zip(work, pmap(_worker, work, limit=120.0, confirm=False)):
         if vs == HANG:
             R.violate({k: c}, '%s %r' % (k, c), None, 'returns', 'time limit')
             continue
@@ -323,7 +323,7 @@ def search(ctx, proof, res):
     work += [('mutation', f) for f in all_functions_on_lists()] + [('reentrant', f) for f in REENTRANT]
     for fs in (['1/0'], ['NOPE()'], ['BOOM()'], ['XL()'], ['1+'], BAD):
         work.append(('retention', (fs, [40, 40, 80])))
-    for (k, c), vs in zip(work, pmap(_worker, work, limit=120.0)):
+    for (k, c), vs in zip(work, pmap(_worker, work, limit=120.0, confirm=False)):
         if vs == HANG:
             continue
         for (k_, c_, w, cls, e, g) in vs:
